@@ -130,6 +130,9 @@ enum ValueMode {
     Boundary,
     /// coincidences: mostly re-use a value (or number byte) seen recently on the channel
     Echo,
+    /// stratified: values, numbers and controller numbers walk through their ranges as a function
+    /// of the run index, so that a batch covers each range evenly instead of by coupon collecting
+    Sweep,
 }
 
 #[derive(Clone, Debug)]
@@ -175,6 +178,7 @@ impl Cfg {
                 ValueMode::Random => "random",
                 ValueMode::Boundary => "boundary",
                 ValueMode::Echo => "echo",
+                ValueMode::Sweep => "sweep",
             }))
             .set("two_numbers", J::Bool(self.two_numbers))
             .set("repr", self.repr.map(J::i).unwrap_or(J::s("mixed")))
@@ -227,7 +231,7 @@ pub fn draw_cfg(r: &mut Rng, p: &Preset) -> Cfg {
     } else {
         30 + r.below(370) as usize
     };
-    let value_mode = *r.pick(&[ValueMode::Unique, ValueMode::Random, ValueMode::Boundary, ValueMode::Echo]);
+    let value_mode = *r.pick(&[ValueMode::Unique, ValueMode::Random, ValueMode::Boundary, ValueMode::Echo, ValueMode::Sweep]);
     let fault_free = r.chance(1, 3);
     let mut rate = [0u64; N_FAULTS];
     if !fault_free {
@@ -402,6 +406,8 @@ pub struct Gen<'a> {
     snap_state: Option<([bool; 16], [bool; 16])>,
     recent: [[u8; 4]; 16],
     recent_pos: [u8; 16],
+    run: u64,
+    sweep_k: u64,
 }
 
 fn is_pn(cn: u8) -> bool {
@@ -409,12 +415,12 @@ fn is_pn(cn: u8) -> bool {
 }
 
 impl<'a> Gen<'a> {
-    pub fn generate(r: &'a mut Rng, p: &'a Preset, stats: &'a mut Probes) -> (Trace, Cfg) {
+    pub fn generate(r: &'a mut Rng, p: &'a Preset, stats: &'a mut Probes, run: u64) -> (Trace, Cfg) {
         let cfg = draw_cfg(r, p);
         let special = [0u16, 1, 2, 5, 6, 127, 128, 16383];
         let mut pick_num = |r: &mut Rng| if r.chance(1, 3) { *r.pick(&special) } else { r.below(16384) as u16 };
         let numbers = [(pick_num(r), r.chance(1, 2)), (pick_num(r), r.chance(1, 2))];
-        let mut g = Gen { r, p, cfg, ev: Vec::new(), next_group: 0, uniq: [0; 16], numbers, inflight: [false; 16], pending_value: [false; 16], stats, rr_next: 0, stall_left: 0, snap_state: None, recent: [[0, 127, 64, 1]; 16], recent_pos: [0; 16] };
+        let mut g = Gen { r, p, cfg, ev: Vec::new(), next_group: 0, uniq: [0; 16], numbers, inflight: [false; 16], pending_value: [false; 16], stats, rr_next: 0, stall_left: 0, snap_state: None, recent: [[0, 127, 64, 1]; 16], recent_pos: [0; 16], run, sweep_k: 0 };
         if g.cfg.channels.len() > 1 {
             g.stats.multi_channel_runs += 1;
         }
@@ -487,6 +493,10 @@ impl<'a> Gen<'a> {
                     self.r.u7()
                 }
             }
+            ValueMode::Sweep => {
+                self.sweep_k = self.sweep_k.wrapping_add(1);
+                ((self.run.wrapping_mul(29).wrapping_add(self.sweep_k.wrapping_mul(37))) % 128) as u8
+            }
             ValueMode::Echo => {
                 let v = if self.r.chance(3, 5) {
                     let k = self.r.below(4) as usize;
@@ -514,6 +524,10 @@ impl<'a> Gen<'a> {
         match self.cfg.value_mode {
             ValueMode::Unique | ValueMode::Echo => (self.value7(ch) as u16) * 128 + self.value7(ch) as u16,
             ValueMode::Random => self.r.below(16384) as u16,
+            ValueMode::Sweep => {
+                self.sweep_k = self.sweep_k.wrapping_add(1);
+                ((self.run.wrapping_mul(6151).wrapping_add(self.sweep_k.wrapping_mul(4099))) % 16384) as u16
+            }
             ValueMode::Boundary => {
                 if self.r.chance(3, 4) {
                     *self.r.pick(&[0u16, 1, 127, 128, 129, 8191, 8192, 16256, 16382, 16383])
@@ -524,6 +538,11 @@ impl<'a> Gen<'a> {
         }
     }
     fn number(&mut self) -> (u16, bool) {
+        if self.cfg.value_mode == ValueMode::Sweep {
+            self.sweep_k = self.sweep_k.wrapping_add(1);
+            let n = (self.run.wrapping_mul(3).wrapping_add(self.sweep_k)) % 16384;
+            return (n as u16, self.r.chance(1, 2));
+        }
         if self.cfg.two_numbers {
             let k = self.r.below(2) as usize;
             self.numbers[k]
@@ -620,7 +639,14 @@ impl<'a> Gen<'a> {
         let start = q.len();
         if k < p.w_cc14_group {
             let bad = self.cfg.rate[F_BAD_ARGUMENT] > 0 && self.r.below(1000) < self.cfg.rate[F_BAD_ARGUMENT];
-            let cn = if bad { 32 + self.r.below(96) as u8 } else { self.r.below(32) as u8 };
+            let cn = if bad {
+                32 + self.r.below(96) as u8
+            } else if self.cfg.value_mode == ValueMode::Sweep {
+                self.sweep_k = self.sweep_k.wrapping_add(1);
+                ((self.run.wrapping_add(self.sweep_k.wrapping_mul(5))) % 32) as u8
+            } else {
+                self.r.below(32) as u8
+            };
             if bad {
                 self.fire(F_BAD_ARGUMENT, Some(ch));
             }
